@@ -424,8 +424,8 @@ fn scenario(chooser: Chooser, cfg: &Cfg, faults: bool, track: bool) -> (Chooser,
     if !done {
         v.push(("lookup-did-not-finish".into(), "the call did not complete within 60 virtual seconds".into()));
     }
-    if w.any_actor_panicked().is_some() {
-        v.push(("actor-died".into(), "actor thread panicked".into()));
+    if let Some(dead) = w.any_actor_panicked() {
+        v.push(("actor-died".into(), format!("actor thread panicked: node {dead} {}", w.death_reason(dead))));
     }
     let out = Out {
         violations: v,
